@@ -421,12 +421,18 @@ deriving DecidableEq, Repr
 
 def isPhChar (b : UInt8) : Bool := isUpper b || isDigit b || b == 95
 
+/-- after a `{`: the run of `[A-Z0-9_]` up to the closing `}` (possibly empty), if the input
+    continues that way -/
+def phRun : Bytes → Option Bytes
+  | [] => none
+  | b :: r => if b == 125 then some [] else if isPhChar b then (phRun r).map (b :: ·) else none
+
 /-- `{[A-Z0-9_]+}` anchored at the head of the input: the name matched -/
 def matchPh : Bytes → Option Bytes
   | 123 :: r =>
-    match r.takeWhile isPhChar, r.dropWhile isPhChar with
-    | n :: ns, 125 :: _ => some (n :: ns)
-    | _, _ => none
+    match phRun r with
+    | some (n :: ns) => some (n :: ns)
+    | _ => none
   | _ => none
 
 def flushText (pend : Bytes) : List MsgPart := if pend.isEmpty then [] else [.text pend]
